@@ -40,21 +40,32 @@ type V struct {
 
 // Case is one generated input.
 type Case struct {
-	Property string   `json:"property,omitempty"`
-	Exotic   int      `json:"exotic,omitempty"` // >0: index+1 into the exotic value table
-	T        *T       `json:"t,omitempty"`
-	V        *V       `json:"v,omitempty"`
-	ByValue  bool     `json:"byValue,omitempty"`
-	Locator  string   `json:"locator"`
-	Failure  string   `json:"failure,omitempty"`
-	Got      []string `json:"got,omitempty"`
-	Want     []string `json:"want,omitempty"`
+	Property string `json:"property,omitempty"`
+	Exotic   int    `json:"exotic,omitempty"` // >0: index+1 into the exotic value table
+	T        *T     `json:"t,omitempty"`
+	V        *V     `json:"v,omitempty"`
+	ByValue  bool   `json:"byValue,omitempty"`
+	// Prev: another value of the same type, extracted with the same locator just before (result ignored). The result for V
+	// is then compared with the result for a copy of V whose struct types are fresh (never seen by the library): what
+	// extraction returns must depend on the value and the locator only, not on what was extracted before.
+	Prev *V `json:"previousValueOfTheSameType,omitempty"`
+	// Twin names a scripted two-type scenario (see twinScenario)
+	Twin    string   `json:"twinScenario,omitempty"`
+	Locator string   `json:"locator"`
+	Failure string   `json:"failure,omitempty"`
+	Got     []string `json:"got,omitempty"`
+	Want    []string `json:"want,omitempty"`
 }
+
+// freshTag, when set, is attached to every field of the struct types built: a struct tag is part of a type's identity, so
+// the types are distinct from (and laid out exactly like) the untagged ones.
+var freshTag string
+var freshSeq int
 
 func (t T) structType() reflect.Type {
 	var fs []reflect.StructField
 	for _, f := range t.Fields {
-		fs = append(fs, reflect.StructField{Name: f.Name, Type: f.T.rtype()})
+		fs = append(fs, reflect.StructField{Name: f.Name, Type: f.T.rtype(), Tag: reflect.StructTag(freshTag)})
 	}
 	return reflect.StructOf(fs)
 }
@@ -280,6 +291,54 @@ type embedsPtr struct {
 	*inner
 	Other string
 }
+
+// embedsPtrB is laid out exactly like embedsPtr (the twin the library meets later, see twinScenario).
+type embedsPtrB struct {
+	*inner
+	Other string
+}
+
+// TwinScenarios: scripted orders over two identical types. The first type is used with a hostile value first (a nil
+// embedded pointer, a nil nested pointer, an empty list), then both types with the same good value: the results must agree.
+var TwinScenarios = []string{"embedded-pointer-nil-first", "nested-pointer-nil-first"}
+
+type nestA struct {
+	Sub  *inner
+	Subs []*inner
+}
+type nestB struct {
+	Sub  *inner
+	Subs []*inner
+}
+
+func twinScenario(c *Case) string {
+	in := &inner{Key: "x", Keys: []string{"p", "q"}}
+	var first, a, b interface{}
+	switch c.Twin {
+	case "embedded-pointer-nil-first":
+		first, a, b = &embedsPtr{Other: "o"}, &embedsPtr{inner: in, Other: "o"}, &embedsPtrB{inner: in, Other: "o"}
+	default:
+		first, a, b = &nestA{Subs: []*inner{nil}}, &nestA{Sub: in, Subs: []*inner{in}}, &nestB{Sub: in, Subs: []*inner{in}}
+	}
+	ex := func(m interface{}) (k []string, err error, p interface{}) {
+		defer func() { p = recover() }()
+		k, err = grpcgcp.VerifKeys(c.Locator, m)
+		return
+	}
+	if _, _, p := ex(first); p != nil {
+		return fmt.Sprintf("extraction panicked: locator %q message %+v: %v", c.Locator, first, p)
+	}
+	ka, ea, pa := ex(a)
+	kb, eb, pb := ex(b)
+	if pa != nil || pb != nil {
+		return fmt.Sprintf("extraction panicked: locator %q: %v %v", c.Locator, pa, pb)
+	}
+	if (ea != nil) != (eb != nil) || (ea == nil && fmt.Sprintf("%q", ka) != fmt.Sprintf("%q", kb)) {
+		return fmt.Sprintf("locator %q: %T (a value with a nil pointer of this type was extracted first) gives keys=%q err=%v, the identical %T gives keys=%q err=%v", c.Locator, a, ka, ea, b, kb, eb)
+	}
+	return ""
+}
+
 type embedsVal struct {
 	inner
 	Other string
@@ -527,14 +586,33 @@ const (
 func Check(c *Case) (failure string, labels map[string]int, nontrivial bool) {
 	labels = map[string]int{}
 	var msg interface{}
+	if c.Twin != "" {
+		f := twinScenario(c)
+		labels["twin-type-scenario"]++
+		return f, labels, true
+	}
 	proto := c.Exotic == 0
-	if proto {
+	build := func(v *V) interface{} {
 		rv := reflect.New(c.T.structType())
-		fill(T{Kind: "struct", Fields: c.T.Fields}, *c.V, rv.Elem())
-		msg = rv.Interface()
+		fill(T{Kind: "struct", Fields: c.T.Fields}, *v, rv.Elem())
 		if c.ByValue {
-			msg = rv.Elem().Interface()
+			return rv.Elem().Interface()
 		}
+		return rv.Interface()
+	}
+	if proto && c.Prev != nil {
+		var p interface{}
+		func() {
+			defer func() { p = recover() }()
+			grpcgcp.VerifKeys(c.Locator, build(c.Prev))
+		}()
+		if p != nil {
+			return fmt.Sprintf("extraction panicked on the previous value: locator %q: %v", c.Locator, p), labels, true
+		}
+		labels["another-value-of-the-type-extracted-before"]++
+	}
+	if proto {
+		msg = build(c.V)
 	} else {
 		ex := exotics()
 		msg = ex[(c.Exotic-1)%len(ex)]
@@ -550,6 +628,25 @@ func Check(c *Case) (failure string, labels map[string]int, nontrivial bool) {
 	c.Got = got
 	if panicked != nil {
 		return fmt.Sprintf("extraction panicked: locator %q message %T %+v: %v", c.Locator, msg, msg, panicked), labels, true
+	}
+	if proto && c.Prev != nil && freshSeq < 20000 { // reflect keeps every struct type it ever built: bounded per process
+		freshSeq++
+		freshTag = fmt.Sprintf(`verif:"%d"`, freshSeq)
+		twin := build(c.V)
+		freshTag = ""
+		var tgot []string
+		var terr error
+		var p interface{}
+		func() {
+			defer func() { p = recover() }()
+			tgot, terr = grpcgcp.VerifKeys(c.Locator, twin)
+		}()
+		if p != nil {
+			return fmt.Sprintf("extraction panicked on the copy with fresh types: locator %q: %v", c.Locator, p), labels, true
+		}
+		if (terr != nil) != (gerr != nil) || (gerr == nil && fmt.Sprintf("%q", tgot) != fmt.Sprintf("%q", got)) {
+			return fmt.Sprintf("locator %q: after another value of the same type was extracted, the message %+v gives keys=%q err=%v; an identical message of a type the library has not seen gives keys=%q err=%v", c.Locator, msg, got, gerr, tgot, terr), labels, true
+		}
 	}
 	if gerr != nil && got != nil && len(got) > 0 {
 		labels["partial-keys-with-error"]++
